@@ -9,8 +9,8 @@
 (* conditions are those of Manager!ScanBuild / Subscribe / ClientSees / Exited / Quiet   *)
 (* projected on what is visible.                                             *)
 (*                                                                         *)
-(* Events: Reset | Op | Construct | RunEnter | RunExit | Points |            *)
-(*         EdgePoints | Quiescent | StopCalled | Returned                    *)
+(* Events: Reset | OpStart | OpAck | Construct | RunEnter | RunExit |        *)
+(*         Points | EdgePoints | Quiescent | Holds | StopCalled | Returned   *)
 (***************************************************************************)
 EXTENDS Integers, Sequences, FiniteSets, TLC, Json
 
@@ -121,13 +121,18 @@ Quiescent == /\ IsEvent("Quiescent")
              /\ recent' = live
              /\ expect' = [k \in AllKeys |-> <<>>]
              /\ UNCHANGED <<live, kids, cs, cfgKids, stopping, pend>>
+\* C08, last clause: a running client that folded everything it was told into the configuration
+\* it was started with holds what the store holds for its node and children (the driver compares
+\* the two at the end of a schedule and logs the outcome)
+Holds == /\ IsEvent("Holds") /\ cs[Ev.key] = "running" /\ Ev.same
+         /\ UNCHANGED <<live, kids, cs, cfgKids, recent, expect, stopping, pend>>
 StopCalled == /\ IsEvent("StopCalled") /\ stopping' = TRUE
               /\ UNCHANGED <<live, kids, cs, cfgKids, recent, expect, pend>>
 Returned == /\ IsEvent("Returned") /\ stopping
             /\ \A k \in AllKeys : cs[k] = "absent"
             /\ UNCHANGED <<live, kids, cs, cfgKids, recent, expect, stopping, pend>>
 
-TraceNext == Reset \/ OpStart \/ OpAck \/ Construct \/ RunEnter \/ RunExit \/ Deliver \/ Quiescent \/ StopCalled \/ Returned
+TraceNext == Reset \/ OpStart \/ OpAck \/ Construct \/ RunEnter \/ RunExit \/ Deliver \/ Quiescent \/ Holds \/ StopCalled \/ Returned
 TraceSpec == TraceInit /\ [][TraceNext]_tvars
 
 \* two clients for one placement never run at the same time: structural (cs is a function);
